@@ -17,6 +17,7 @@ structure AR where
   wd : Bool
   idle : Bool          -- not in a simcall, or in a simcall that maestro has not handled yet
   blocked : Bool
+  pend : Bool
   anyList : List Nat
   slotIdx : List Nat
   pidx : List Nat      -- activities named by the pending simcall
@@ -31,7 +32,7 @@ def Actor.idle (x : Actor) : Bool := !x.blocked || x.pending.isSome
 
 def Actor.ar (x : Actor) : AR :=
   { waiting := x.waiting, tcb := x.tcb, ktimer := x.ktimer, wd := x.wannadie, idle := x.idle, blocked := x.blocked,
-    anyList := x.anyList, slotIdx := x.slots.map (·.2.1), pidx := (x.pending.map Req.idx).getD [],
+    pend := x.pending.isSome, anyList := x.anyList, slotIdx := x.slots.map (·.2.1), pidx := (x.pending.map Req.idx).getD [],
     rank := match x.res with | .rank _ => true | _ => false }
 
 def cbActor : Cb → Option Nat
@@ -61,6 +62,7 @@ structure RegInvF (sim : Nat → List Nat) (ar : Nat → AR) (timers : List Time
   slots : ∀ a, ∀ i ∈ (ar a).slotIdx, i < nimpl
   pidx : ∀ a, ∀ i ∈ (ar a).pidx, i < nimpl
   rank : ∀ a, (ar a).rank = true → 0 < nimpl
+  pb : ∀ a, (ar a).wd = false → (ar a).pend = true → (ar a).blocked = true
 
 def K.simF (k : K) : Nat → List Nat := fun i => (k.impl i).simcalls
 def K.arF (k : K) : Nat → AR := fun a => (k.actor a).ar
@@ -163,9 +165,10 @@ theorem RegInvF.upd {sim : Nat → List Nat} {ar : Nat → AR} {T : List Timer} 
     (htl : ∀ t ∈ T, cbActor t.cb = some a → TLinkF (updF ar a x) t)
     (hrev : ∀ id, x.tcb = some id → ∃ t ∈ T, t.id = id ∧ cbActor t.cb = some a)
     (hk : ∀ id, x.ktimer = some id → id < n ∧ ∀ t ∈ T, t.id = id → cbActor t.cb = none)
-    (hslots : ∀ i ∈ x.slotIdx, i < m) (hp : ∀ i ∈ x.pidx, i < m) (hr : x.rank = true → 0 < m) :
+    (hslots : ∀ i ∈ x.slotIdx, i < m) (hp : ∀ i ∈ x.pidx, i < m) (hr : x.rank = true → 0 < m)
+    (hpb : x.wd = false → x.pend = true → x.blocked = true) :
     RegInvF sim' (updF ar a x) T n m := by
-  refine ⟨hcnt, ?_, ?_, h.tid, h.tnd, ?_, ?_, ?_, ?_, ?_, ?_⟩
+  refine ⟨hcnt, ?_, ?_, h.tid, h.tnd, ?_, ?_, ?_, ?_, ?_, ?_, ?_⟩
   · intro b; by_cases hb : b = a
     · subst hb; simpa using hidle
     · rw [updF_ne _ _ _ _ hb]; exact h.idle b
@@ -191,6 +194,9 @@ theorem RegInvF.upd {sim : Nat → List Nat} {ar : Nat → AR} {T : List Timer} 
   · intro b; by_cases hb : b = a
     · subst hb; simpa using hr
     · rw [updF_ne _ _ _ _ hb]; exact h.rank b
+  · intro b; by_cases hb : b = a
+    · subst hb; simpa using hpb
+    · rw [updF_ne _ _ _ _ hb]; exact h.pb b
 
 theorem eq_of_nodup_map_id {T : List Timer} (h : (T.map (·.id)).Nodup) {t1 t2 : Timer} (h1 : t1 ∈ T) (h2 : t2 ∈ T)
     (he : t1.id = t2.id) : t1 = t2 := by
@@ -214,9 +220,10 @@ theorem RegInvF.dropTimers {sim : Nat → List Nat} {ar : Nat → AR} {T : List 
     (hshape : x.wd = false → x.shape)
     (htcb : x.tcb = none)
     (hk : ∀ id, x.ktimer = some id → id < n ∧ ∀ t ∈ T, t.id = id → cbActor t.cb = none)
-    (hslots : ∀ i ∈ x.slotIdx, i < m) (hp : ∀ i ∈ x.pidx, i < m) (hr : x.rank = true → 0 < m) :
+    (hslots : ∀ i ∈ x.slotIdx, i < m) (hp : ∀ i ∈ x.pidx, i < m) (hr : x.rank = true → 0 < m)
+    (hpb : x.wd = false → x.pend = true → x.blocked = true) :
     RegInvF sim' (updF ar a x) T' n m := by
-  refine ⟨hcnt, ?_, ?_, fun t ht => h.tid t (hsub.subset ht), (hsub.map _).nodup h.tnd, ?_, ?_, ?_, ?_, ?_, ?_⟩
+  refine ⟨hcnt, ?_, ?_, fun t ht => h.tid t (hsub.subset ht), (hsub.map _).nodup h.tnd, ?_, ?_, ?_, ?_, ?_, ?_, ?_⟩
   · intro b; by_cases hb : b = a
     · subst hb; simp only [updF_same]; intro h1 h2; exact ⟨hidle h1 h2, htcb⟩
     · rw [updF_ne _ _ _ _ hb]; exact h.idle b
@@ -247,6 +254,9 @@ theorem RegInvF.dropTimers {sim : Nat → List Nat} {ar : Nat → AR} {T : List 
   · intro b; by_cases hb : b = a
     · subst hb; simpa using hr
     · rw [updF_ne _ _ _ _ hb]; exact h.rank b
+  · intro b; by_cases hb : b = a
+    · subst hb; simpa using hpb
+    · rw [updF_ne _ _ _ _ hb]; exact h.pb b
 
 /-- `Timer::remove()` of the timer named by `timeout_cb_`: exactly the timers of that actor disappear -/
 theorem RegInvF.filter_tcb {sim : Nat → List Nat} {ar : Nat → AR} {T : List Timer} {n m : Nat}
@@ -305,7 +315,7 @@ theorem AR.shape_erase (x : AR) (i : Nat) (h : x.shape) : ({ x with waiting := x
 theorem RegInvF.unreg {sim : Nat → List Nat} {ar : Nat → AR} {T : List Timer} {n m : Nat}
     (h : RegInvF sim ar T n m) (i a : Nat) (hnt : NT T a) :
     RegInvF (updF sim i ((sim i).erase a)) (updF ar a { ar a with waiting := (ar a).waiting.erase i }) T n m := by
-  refine h.upd a _ _ ?_ ?_ ?_ ?_ ?_ (h.klink a) (h.slots a) (h.pidx a) (h.rank a)
+  refine h.upd a _ _ ?_ ?_ ?_ ?_ ?_ (h.klink a) (h.slots a) (h.pidx a) (h.rank a) (h.pb a)
   · intro b j hwd
     by_cases hb : b = a
     · subst hb
@@ -332,9 +342,10 @@ theorem RegInvF.flags {sim : Nat → List Nat} {ar : Nat → AR} {T : List Timer
     (h : RegInvF sim ar T n m) (a : Nat) (x : AR) (hw : x.waiting = (ar a).waiting) (ht : x.tcb = (ar a).tcb)
     (hkt : x.ktimer = (ar a).ktimer) (hwd : x.wd = (ar a).wd) (han : x.anyList = (ar a).anyList)
     (hsl : ∀ i ∈ x.slotIdx, i < m) (hpi : ∀ i ∈ x.pidx, i < m) (hrk : x.rank = true → 0 < m)
-    (hclean : (ar a).wd = false → x.idle = true → (ar a).waiting = [] ∧ (ar a).tcb = none) :
+    (hclean : (ar a).wd = false → x.idle = true → (ar a).waiting = [] ∧ (ar a).tcb = none)
+    (hpb : x.wd = false → x.pend = true → x.blocked = true) :
     RegInvF sim (updF ar a x) T n m := by
-  refine h.upd a x sim ?_ ?_ ?_ ?_ ?_ ?_ hsl hpi hrk
+  refine h.upd a x sim ?_ ?_ ?_ ?_ ?_ ?_ hsl hpi hrk hpb
   · intro b j hb
     by_cases hba : b = a
     · subst hba; simp only [updF_same] at hb ⊢; rw [hw]; exact h.cnt b j (by rw [← hwd]; exact hb)
@@ -478,7 +489,7 @@ theorem RegInvF.ufDrop {sim : Nat → List Nat} {ar : Nat → AR} {T : List Time
     (hsub : T'.Sublist T) (hnt : NT T' a) (hkeep : ∀ t ∈ T, cbActor t.cb ≠ some a → t ∈ T') :
     RegInvF (updF sim i rest)
       (updF ar a { ar a with waiting := (ar a).waiting.erase i, tcb := none }) T' n m := by
-  refine h.dropTimers a _ _ T' hsub hnt hkeep ?_ ?_ ?_ rfl (h.klink a) (h.slots a) (h.pidx a) (h.rank a)
+  refine h.dropTimers a _ _ T' hsub hnt hkeep ?_ ?_ ?_ rfl (h.klink a) (h.slots a) (h.pidx a) (h.rank a) (h.pb a)
   · intro b j hwd
     by_cases hb : b = a
     · subst hb
@@ -572,10 +583,12 @@ theorem RegInv.flags {k : K} (h : RegInv k) (a : Nat) (f : Actor → Actor)
     (hpi : ∀ i ∈ (f (k.actor a)).ar.pidx, i < k.impls.length)
     (hrk : (f (k.actor a)).ar.rank = true → 0 < k.impls.length)
     (hclean : (k.actor a).wannadie = false → (f (k.actor a)).idle = true →
-      (k.actor a).waiting = [] ∧ (k.actor a).tcb = none) :
+      (k.actor a).waiting = [] ∧ (k.actor a).tcb = none)
+    (hpb : (f (k.actor a)).wannadie = false → (f (k.actor a)).pending.isSome = true →
+      (f (k.actor a)).blocked = true) :
     RegInv (k.setActor a f) := by
   by_cases ha : a < k.actors.length
-  · refine RegInv.mk' _ (RegInvF.flags h a (f (k.actor a)).ar ?_ ?_ ?_ ?_ ?_ hsl hpi hrk ?_) rfl
+  · refine RegInv.mk' _ (RegInvF.flags h a (f (k.actor a)).ar ?_ ?_ ?_ ?_ ?_ hsl hpi hrk ?_ hpb) rfl
       (arF_setActor k a f ha) rfl rfl rfl
     · exact hw
     · exact ht
@@ -605,7 +618,7 @@ theorem uf3_reg (k : K) (i a : Nat) (h : RegInv k) (hnt : NT k.timers a) (hi : i
     have h4 : RegInv ((List.foldl (fun k j => k.unregister j a) k (k.actor a).anyList).setActor a
         fun x => { x with res := Res.rank (rankOf (k.actor a).anyList i) }) := by
       refine RegInv.flags h1 a _ rfl rfl rfl rfl rfl
-        ?_ ?_ ?_ ?_
+        ?_ ?_ ?_ ?_ ?_
       · exact h1.slots a
       · exact h1.pidx a
       · intro _
@@ -613,6 +626,7 @@ theorem uf3_reg (k : K) (i a : Nat) (h : RegInv k) (hnt : NT k.timers a) (hi : i
         rw [this]; exact Nat.lt_of_le_of_lt (Nat.zero_le _) hi
       · intro hwd hid
         exact h1.idle a hwd hid
+      · exact h1.pb a
     have p1 : ∀ {β} (g : Actor → β) (hg : ∀ x r, g { x with res := r } = g x),
         g (((List.foldl (fun k j => k.unregister j a) k (k.actor a).anyList).setActor a
           fun x => { x with res := Res.rank (rankOf (k.actor a).anyList i) }).actor a) =
@@ -694,13 +708,18 @@ theorem ufAll_reg (k : K) (i a : Nat) (rest : List Nat) (h : RegInv k) (hs : (k.
         omega
 
 theorem answer_reg (k : K) (a : Nat) (h : RegInv k)
-    (hclean : (k.actor a).wannadie = false → (k.actor a).waiting = [] ∧ (k.actor a).tcb = none) :
+    (hclean : (k.actor a).wannadie = false →
+      (k.actor a).waiting = [] ∧ (k.actor a).tcb = none ∧ (k.actor a).pending = none) :
     RegInv (k.answer a) := by
   unfold K.answer
   split
   · refine RegInv.same ?_ (rsame_of _ _ rfl rfl rfl rfl)
     refine RegInv.flags h a _ rfl rfl rfl rfl rfl
-      (h.slots a) (h.pidx a) (h.rank a) (fun hw _ => hclean hw)
+      (h.slots a) (h.pidx a) (h.rank a) (fun hw _ => ⟨(hclean hw).1, (hclean hw).2.1⟩) ?_
+    intro hw hp
+    have : (k.actor a).pending = none := (hclean hw).2.2
+    simp only [this] at hp
+    cases hp
   · exact h.same (rsame_of _ _ rfl rfl rfl rfl)
 
 theorem finishOne_reg (k : K) (i a : Nat) (rest : List Nat) (h : RegInv k) (hs : (k.impl i).simcalls = a :: rest) :
@@ -717,9 +736,24 @@ theorem finishOne_reg (k : K) (i a : Nat) (rest : List Nat) (h : RegInv k) (hs :
         h1.same (rsame_setImpl _ _ _ (by intro _; rfl))
       split
       · refine RegInv.flags e1 a _ rfl rfl rfl rfl rfl
-          (e1.slots a) (e1.pidx a) (by intro hr; simp [Actor.ar] at hr) (fun hw hid => e1.idle a hw hid)
+          (e1.slots a) (e1.pidx a) (by intro hr; simp [Actor.ar] at hr) (fun hw hid => e1.idle a hw hid) (e1.pb a)
       · exact e1
     · intro _
+      have hpn : (k.actor a).pending = none := by
+        cases hpd : (k.actor a).pending with
+        | none => rfl
+        | some r =>
+          exfalso
+          have hid : (k.arF a).idle = true := by
+            show (k.actor a).idle = true
+            simp [Actor.idle, hpd]
+          have hw := (h.idle a hwd hid).1
+          have hc := h.cnt a i hwd
+          rw [hw] at hc
+          have : (k.simF i).count a = ((k.impl i).simcalls).count a := rfl
+          rw [this, hs] at hc
+          simp at hc
+      have hpn2 := (shr_ufAll k i a).pnone a hpn
       have p : ∀ {β} (g : Actor → β) (hg : ∀ x r, g { x with res := r } = g x),
           g ((if (((k.ufAll i a).setImpl i fun x => { x with owners := x.owners.erase a }).impl i).st == IState.canceled
               then ((k.ufAll i a).setImpl i fun x => { x with owners := x.owners.erase a }).setActor a
@@ -730,8 +764,8 @@ theorem finishOne_reg (k : K) (i a : Nat) (rest : List Nat) (h : RegInv k) (hs :
         split
         · exact actor_setActor_proj g _ a a _ (by intro x; exact hg x _)
         · rfl
-      rw [p (·.waiting) (by intro _ _; rfl), p (·.tcb) (by intro _ _; rfl)]
-      exact ⟨h4 hwd, h2⟩
+      rw [p (·.waiting) (by intro _ _; rfl), p (·.tcb) (by intro _ _; rfl), p (·.pending) (by intro _ _; rfl)]
+      exact ⟨h4 hwd, h2, hpn2⟩
   · exact h1
 
 theorem finishLoop_reg (k : K) (i n : Nat) (h : RegInv k) : RegInv (k.finishLoop i n) := by
@@ -762,7 +796,7 @@ theorem RegInvF.wd {sim : Nat → List Nat} {ar : Nat → AR} {T : List Timer} {
     (hkt : x.ktimer = (ar a).ktimer)
     (hsl : ∀ i ∈ x.slotIdx, i < m) (hpi : ∀ i ∈ x.pidx, i < m) (hrk : x.rank = true → 0 < m) :
     RegInvF sim (updF ar a x) T n m := by
-  refine h.upd a x sim ?_ ?_ ?_ ?_ ?_ ?_ hsl hpi hrk
+  refine h.upd a x sim ?_ ?_ ?_ ?_ ?_ ?_ hsl hpi hrk (by intro h1; rw [hwd] at h1; cases h1)
   · intro b j hb
     by_cases hba : b = a
     · subst hba; simp only [updF_same] at hb; rw [hwd] at hb; cases hb
@@ -843,7 +877,7 @@ theorem RegInvF.subTimers {sim : Nat → List Nat} {ar : Nat → AR} {T : List T
     (h : RegInvF sim ar T n m) (T' : List Timer) (hsub : T'.Sublist T)
     (hkeep : ∀ t ∈ T, cbActor t.cb ≠ none → t ∈ T') : RegInvF sim ar T' n m := by
   refine ⟨h.cnt, h.idle, h.shape, fun t ht => h.tid t (hsub.subset ht), (hsub.map _).nodup h.tnd,
-    fun t ht => h.tlink t (hsub.subset ht), ?_, ?_, h.slots, h.pidx, h.rank⟩
+    fun t ht => h.tlink t (hsub.subset ht), ?_, ?_, h.slots, h.pidx, h.rank, h.pb⟩
   · intro a id hid
     obtain ⟨t, ht, h1, h2⟩ := h.rev a id hid
     exact ⟨t, hkeep t ht (by rw [h2]; simp), h1, h2⟩
@@ -865,7 +899,7 @@ theorem dieK_reg (k : K) (a : Nat) (h : RegInv k) : RegInv (k.dieK a) := by
       exact hc (hk.2 t ht e)
     by_cases ha : a < k.actors.length
     · refine RegInv.mk' _ (RegInvF.upd h1 a ({ (k.actor a) with ktimer := none } : Actor).ar (k.timerRemove id).simF
-        ?_ ?_ ?_ ?_ ?_ ?_ (h1.slots a) (h1.pidx a) (h1.rank a)) rfl
+        ?_ ?_ ?_ ?_ ?_ ?_ (h1.slots a) (h1.pidx a) (h1.rank a) (h1.pb a)) rfl
         (by rw [arF_setActor _ _ _ (by simpa [K.timerRemove] using ha)]; rfl) rfl rfl rfl
       · intro b j hb
         by_cases hba : b = a
@@ -902,7 +936,7 @@ theorem dieT_reg (k : K) (a : Nat) (h : RegInv k) : RegInv (k.dieT a) := by
       · rw [actor_of_ge k a (by omega)] at hid; cases hid
     refine RegInv.mk' _ (RegInvF.dropTimers h a ({ (k.actor a) with tcb := none } : Actor).ar k.simF
       (k.timers.filter (fun t => t.id != id)) List.filter_sublist hnt hkeep ?_ ?_ ?_ rfl (h.klink a) (h.slots a)
-      (h.pidx a) (h.rank a)) rfl
+      (h.pidx a) (h.rank a) (h.pb a)) rfl
       (by rw [arF_setActor _ _ _ (by simpa [K.timerRemove] using ha)]; rfl) rfl rfl rfl
     · intro b j hb
       by_cases hba : b = a
@@ -924,7 +958,7 @@ theorem RegInvF.grow {sim : Nat → List Nat} {ar : Nat → AR} {T : List Timer}
     (h : RegInvF sim ar T n m) (hm : m ≤ m') : RegInvF sim ar T n m' :=
   ⟨h.cnt, h.idle, h.shape, h.tid, h.tnd, h.tlink, h.rev, h.klink,
    fun a i hi => Nat.lt_of_lt_of_le (h.slots a i hi) hm, fun a i hi => Nat.lt_of_lt_of_le (h.pidx a i hi) hm,
-   fun a hr => Nat.lt_of_lt_of_le (h.rank a hr) hm⟩
+   fun a hr => Nat.lt_of_lt_of_le (h.rank a hr) hm, h.pb⟩
 
 theorem simF_newImpl (k : K) (im : Impl) (h : im.simcalls = []) : (k.newImpl im).1.simF = k.simF := by
   funext j
@@ -949,7 +983,7 @@ theorem RegInvF.register {sim : Nat → List Nat} {ar : Nat → AR} {T : List Ti
     (htl : ∀ t ∈ T, cbActor t.cb = some a → TLinkF (updF ar a { ar a with waiting := (ar a).waiting ++ [i] }) t)
     (hsh : ({ ar a with waiting := (ar a).waiting ++ [i] } : AR).shape) :
     RegInvF (updF sim i (sim i ++ [a])) (updF ar a { ar a with waiting := (ar a).waiting ++ [i] }) T n m := by
-  refine h.upd a _ _ ?_ ?_ ?_ ?_ ?_ (h.klink a) (h.slots a) (h.pidx a) (h.rank a)
+  refine h.upd a _ _ ?_ ?_ ?_ ?_ ?_ (h.klink a) (h.slots a) (h.pidx a) (h.rank a) (h.pb a)
   · intro b j hwd
     by_cases hb : b = a
     · subst hb
@@ -991,7 +1025,7 @@ theorem RegInvF.addTimer {sim : Nat → List Nat} {ar : Nat → AR} {T : List Ti
     (hlink : TLinkF (updF ar a { ar a with tcb := some n }) { id := n, date := date, cb := cb }) :
     RegInvF sim (updF ar a { ar a with tcb := some n }) (T ++ [{ id := n, date := date, cb := cb }]) (n+1) m := by
   have hnt := NT_of_tcb_none h a htcb
-  refine ⟨?_, ?_, ?_, ?_, ?_, ?_, ?_, ?_, ?_, ?_, ?_⟩
+  refine ⟨?_, ?_, ?_, ?_, ?_, ?_, ?_, ?_, ?_, ?_, ?_, ?_⟩
   · intro b j hb
     by_cases hba : b = a
     · subst hba; simp only [updF_same] at hb ⊢; exact h.cnt b j hb
@@ -1045,12 +1079,15 @@ theorem RegInvF.addTimer {sim : Nat → List Nat} {ar : Nat → AR} {T : List Ti
   · intro b; by_cases hba : b = a
     · subst hba; simp only [updF_same]; exact h.rank b
     · rw [updF_ne _ _ _ _ hba]; exact h.rank b
+  · intro b; by_cases hba : b = a
+    · subst hba; simp only [updF_same]; exact h.pb b
+    · rw [updF_ne _ _ _ _ hba]; exact h.pb b
 
 /-- `Timer::set` of a kill timer -/
 theorem RegInvF.addKill {sim : Nat → List Nat} {ar : Nat → AR} {T : List Timer} {n m : Nat}
     (h : RegInvF sim ar T n m) (a b0 : Nat) (date : Rat) :
     RegInvF sim (updF ar a { ar a with ktimer := some n }) (T ++ [{ id := n, date := date, cb := .kill b0 }]) (n+1) m := by
-  refine ⟨?_, ?_, ?_, ?_, ?_, ?_, ?_, ?_, ?_, ?_, ?_⟩
+  refine ⟨?_, ?_, ?_, ?_, ?_, ?_, ?_, ?_, ?_, ?_, ?_, ?_⟩
   · intro b j hb
     by_cases hba : b = a
     · subst hba; simp only [updF_same] at hb ⊢; exact h.cnt b j hb
@@ -1121,6 +1158,9 @@ theorem RegInvF.addKill {sim : Nat → List Nat} {ar : Nat → AR} {T : List Tim
   · intro b; by_cases hba : b = a
     · subst hba; simp only [updF_same]; exact h.rank b
     · rw [updF_ne _ _ _ _ hba]; exact h.rank b
+  · intro b; by_cases hba : b = a
+    · subst hba; simp only [updF_same]; exact h.pb b
+    · rw [updF_ne _ _ _ _ hba]; exact h.pb b
 
 /-- what maestro knows about the issuer when it handles its simcall -/
 structure HPre (k : K) (a : Nat) : Prop where
@@ -1148,8 +1188,8 @@ theorem tcb_none_of_sub {k k' : K} (a : Nat) (h : RegInv k) (h' : RegInv k') (s 
 
 /-- the issuer is still clean after a function of the `Shr` family -/
 theorem HPre.shr {k k' : K} {a : Nat} (hp : HPre k a) (h : RegInv k) (h' : RegInv k') (s : Shr k k') :
-    (k'.actor a).waiting = [] ∧ (k'.actor a).tcb = none :=
-  ⟨s.wait a hp.wait, tcb_none_of_sub a h h' s.timers hp.tcb⟩
+    (k'.actor a).waiting = [] ∧ (k'.actor a).tcb = none ∧ (k'.actor a).pending = none :=
+  ⟨s.wait a hp.wait, tcb_none_of_sub a h h' s.timers hp.tcb, s.pnone a hp.pend⟩
 
 theorem mem_setSlot (x : Actor) (s j : Nat) (st : SState) (i : Nat)
     (hi : i ∈ (x.setSlot s j st).ar.slotIdx) : i = j ∨ i ∈ x.ar.slotIdx := by
@@ -1160,7 +1200,7 @@ theorem mem_setSlot (x : Actor) (s j : Nat) (st : SState) (i : Nat)
 
 theorem setSlot_reg (k : K) (a s j : Nat) (st : SState) (h : RegInv k) (hj : j < k.impls.length) :
     RegInv (k.setActor a (fun x => x.setSlot s j st)) := by
-  refine RegInv.flags h a _ rfl rfl rfl rfl rfl ?_ (h.pidx a) (h.rank a) (fun hw hid => h.idle a hw hid)
+  refine RegInv.flags h a _ rfl rfl rfl rfl rfl ?_ (h.pidx a) (h.rank a) (fun hw hid => h.idle a hw hid) (h.pb a)
   intro i hi
   rcases mem_setSlot _ _ _ _ _ hi with hi | hi
   · rw [hi]; exact hj
@@ -1200,11 +1240,12 @@ theorem handle_reg_start (now : Rat) (k : K) (a slot : Nat) (kind : Kind) (d : R
         g ((k0.setActor a fun x => x.setSlot s j st).actor a) = g (k0.actor a) := by
       intro β g hg k0 s j st
       exact actor_setActor_proj g _ a a _ (by intro x; exact hg x _ _ _)
-    rw [e (·.waiting) (by intro _ _ _ _; rfl), e (·.tcb) (by intro _ _ _ _; rfl)]
-    exact ⟨hp.wait, hp.tcb⟩
+    rw [e (·.waiting) (by intro _ _ _ _; rfl), e (·.tcb) (by intro _ _ _ _; rfl),
+      e (·.pending) (by intro _ _ _ _; rfl)]
+    exact ⟨hp.wait, hp.tcb, hp.pend⟩
 
 theorem slot_answer_reg (k : K) (a s j : Nat) (st : SState) (h : RegInv k) (hj : j < k.impls.length)
-    (hc : (k.actor a).waiting = [] ∧ (k.actor a).tcb = none) :
+    (hc : (k.actor a).waiting = [] ∧ (k.actor a).tcb = none ∧ (k.actor a).pending = none) :
     RegInv ((k.setActor a (fun x => x.setSlot s j st)).answer a) := by
   apply answer_reg
   · exact setSlot_reg k a s j st h hj
@@ -1213,7 +1254,8 @@ theorem slot_answer_reg (k : K) (a s j : Nat) (st : SState) (h : RegInv k) (hj :
         g ((k.setActor a fun x => x.setSlot s j st).actor a) = g (k.actor a) := by
       intro β g hg
       exact actor_setActor_proj g _ a a _ (by intro x; exact hg x _ _ _)
-    rw [e (·.waiting) (by intro _ _ _ _; rfl), e (·.tcb) (by intro _ _ _ _; rfl)]
+    rw [e (·.waiting) (by intro _ _ _ _; rfl), e (·.tcb) (by intro _ _ _ _; rfl),
+      e (·.pending) (by intro _ _ _ _; rfl)]
     exact hc
 
 theorem handle_reg_mess (now : Rat) (k : K) (a slot q : Nat) (want mine : Kind) (h : RegInv k) (hp : HPre k a) :
@@ -1241,7 +1283,7 @@ theorem handle_reg_mess (now : Rat) (k : K) (a slot q : Nat) (want mine : Kind) 
     have h1 := newImpl_reg k { kind := mine, st := .waiting, queue := q, owners := [a] } h rfl
     apply slot_answer_reg _ _ _ _ _ h1
     · simp [K.newImpl]
-    · exact ⟨hp.wait, hp.tcb⟩
+    · exact ⟨hp.wait, hp.tcb, hp.pend⟩
 
 theorem handle_reg_test (now : Rat) (k : K) (a i : Nat) (h : RegInv k) (hp : HPre k a) :
     RegInv (k.handle now a (.test i)) := by
@@ -1250,9 +1292,9 @@ theorem handle_reg_test (now : Rat) (k : K) (a i : Nat) (h : RegInv k) (hp : HPr
   · split
     · have h2 := finish_reg k i h
       exact RegInv.flags h2 a _ rfl rfl rfl rfl rfl (h2.slots a) (h2.pidx a)
-        (by intro hr; simp [Actor.ar] at hr) (fun hw hid => h2.idle a hw hid)
+        (by intro hr; simp [Actor.ar] at hr) (fun hw hid => h2.idle a hw hid) (h2.pb a)
     · exact RegInv.flags h a _ rfl rfl rfl rfl rfl (h.slots a) (h.pidx a)
-        (by intro hr; simp [Actor.ar] at hr) (fun hw hid => h.idle a hw hid)
+        (by intro hr; simp [Actor.ar] at hr) (fun hw hid => h.idle a hw hid) (h.pb a)
   · intro _
     split
     · have h2 := finish_reg k i h
@@ -1262,14 +1304,14 @@ theorem handle_reg_test (now : Rat) (k : K) (a i : Nat) (h : RegInv k) (hp : HPr
           g ((k.finish i).actor a) := by
         intro β g hg
         exact actor_setActor_proj g _ a a _ (by intro x; exact hg x _)
-      rw [e (·.waiting) (by intro _ _; rfl), e (·.tcb) (by intro _ _; rfl)]
+      rw [e (·.waiting) (by intro _ _; rfl), e (·.tcb) (by intro _ _; rfl), e (·.pending) (by intro _ _; rfl)]
       exact this
     · have e : ∀ {β} (g : Actor → β) (hg : ∀ x r, g { x with res := r } = g x),
           g ((k.setActor a fun x => { x with res := Res.tested false }).actor a) = g (k.actor a) := by
         intro β g hg
         exact actor_setActor_proj g _ a a _ (by intro x; exact hg x _)
-      rw [e (·.waiting) (by intro _ _; rfl), e (·.tcb) (by intro _ _; rfl)]
-      exact ⟨hp.wait, hp.tcb⟩
+      rw [e (·.waiting) (by intro _ _; rfl), e (·.tcb) (by intro _ _; rfl), e (·.pending) (by intro _ _; rfl)]
+      exact ⟨hp.wait, hp.tcb, hp.pend⟩
 
 theorem handle_reg_cancel (now : Rat) (k : K) (a i : Nat) (h : RegInv k) (hp : HPre k a) :
     RegInv (k.handle now a (.cancel i)) := by
@@ -1280,13 +1322,13 @@ theorem handle_reg_cancel (now : Rat) (k : K) (a i : Nat) (h : RegInv k) (hp : H
     have h2 := congrFun (rsame_cancel k i).ar a
     have e1 : ((k.cancel i).actor a).waiting = (k.actor a).waiting := congrArg AR.waiting h2
     have e2 : ((k.cancel i).actor a).tcb = (k.actor a).tcb := congrArg AR.tcb h2
-    rw [e1, e2]; exact ⟨hp.wait, hp.tcb⟩
+    rw [e1, e2]; exact ⟨hp.wait, hp.tcb, (shr_cancel k i).pnone a hp.pend⟩
 
 theorem handle_reg_killAt (now : Rat) (k : K) (a : Nat) (t : Rat) (h : RegInv k) (hp : HPre k a) :
     RegInv (k.handle now a (.killAt t)) := by
   simp only [K.handle]
   split
-  · exact answer_reg k a h (fun _ => ⟨hp.wait, hp.tcb⟩)
+  · exact answer_reg k a h (fun _ => ⟨hp.wait, hp.tcb, hp.pend⟩)
   · apply answer_reg
     · exact RegInv.mk' _ (RegInvF.addKill h a a t) rfl
         (by rw [arF_setActor _ _ _ (by simpa [K.timerSet] using hp.va)]; rfl) rfl rfl rfl
@@ -1296,8 +1338,8 @@ theorem handle_reg_killAt (now : Rat) (k : K) (a : Nat) (t : Rat) (h : RegInv k)
             = g (k.actor a) := by
         intro β g hg
         exact actor_setActor_proj g _ a a _ (by intro x; exact hg x _)
-      rw [e (·.waiting) (by intro _ _; rfl), e (·.tcb) (by intro _ _; rfl)]
-      exact ⟨hp.wait, hp.tcb⟩
+      rw [e (·.waiting) (by intro _ _; rfl), e (·.tcb) (by intro _ _; rfl), e (·.pending) (by intro _ _; rfl)]
+      exact ⟨hp.wait, hp.tcb, hp.pend⟩
 
 theorem arF_register (k : K) (i a : Nat) (ha : a < k.actors.length) :
     (k.register i a).arF = updF k.arF a { k.arF a with waiting := (k.arF a).waiting ++ [i] } := by
@@ -1379,7 +1421,7 @@ theorem setAny_reg (k : K) (a : Nat) (is : List Nat) (h : RegInv k) (hp : HPre k
     RegInv (k.setActor a fun x => { x with anyList := is }) := by
   have hnt := hp.nt h
   refine RegInv.mk' _ (RegInvF.upd h a ({ k.actor a with anyList := is } : Actor).ar k.simF
-    ?_ ?_ ?_ ?_ ?_ (h.klink a) (h.slots a) (h.pidx a) (h.rank a)) rfl (arF_setActor _ _ _ hp.va) rfl rfl rfl
+    ?_ ?_ ?_ ?_ ?_ (h.klink a) (h.slots a) (h.pidx a) (h.rank a) (h.pb a)) rfl (arF_setActor _ _ _ hp.va) rfl rfl rfl
   · intro b j hb
     by_cases hba : b = a
     · subst hba; simp only [updF_same] at hb ⊢; exact h.cnt b j hb
@@ -1407,7 +1449,7 @@ theorem handle_reg_waitAny (now : Rat) (k : K) (a : Nat) (is : List Nat) (tau : 
   · -- no timeout
     have h2 : RegInv (k1.setActor a fun x => { x with tcb := none }) :=
       RegInv.flags h1 a _ rfl (by show none = (k1.actor a).tcb; rw [hp1.tcb]) rfl rfl rfl
-        (h1.slots a) (h1.pidx a) (h1.rank a) (fun hw hid => h1.idle a hw hid)
+        (h1.slots a) (h1.pidx a) (h1.rank a) (fun hw hid => h1.idle a hw hid) (h1.pb a)
     have e2 : (k1.setActor a fun x => { x with tcb := none }).actor a = { k1.actor a with tcb := none } :=
       actor_setActor_same _ _ _ hp1.va
     apply go_reg a is _ h2
